@@ -32,16 +32,23 @@ type HandshakeCase struct {
 	// SetBinlogPosition to the end label of its k-th accepted transaction (k = 0: the start position),
 	// clamped to what has been accepted; that attempt must ask for exactly that position
 	Rewind []int `json:",omitempty"`
+	// CutExtra[i]: attempt i's connection is closed this many packets after the commit event of Cuts[i]
+	// (0: right behind it), i.e. possibly inside the next transaction
+	CutExtra []int `json:",omitempty"`
 }
 
 // cutAfterCommits truncates the script right after the n-th commit event it carries.
-func cutAfterCommits(l *hist.Layout, n int) func([]fakemaster.Step, []int) []fakemaster.Step {
+func cutAfterCommits(l *hist.Layout, n, extra int) func([]fakemaster.Step, []int) []fakemaster.Step {
 	return func(steps []fakemaster.Step, evIdx []int) []fakemaster.Step {
 		seen := 0
 		for i, ev := range evIdx {
 			if ev >= 0 && l.Events[ev].Commit {
 				seen++
 				if seen == n {
+					// up to extra further packets, but never another commit event and never the final EOF
+					for k := 0; k < extra && i+1 < len(steps)-1 && i+1 < len(evIdx) && !(evIdx[i+1] >= 0 && l.Events[evIdx[i+1]].Commit); k++ {
+						i++
+					}
 					steps = steps[:i+1]
 					steps[i].Then = fakemaster.CloseFIN
 					return steps
@@ -147,7 +154,11 @@ func checkC07(c *HandshakeCase) error {
 				at.afterReturn = func(*attemptState) { disarm() }
 				connectFails = true
 			default:
-				at.mutate = cutAfterCommits(l, c.Cuts[i])
+				extra := 0
+				if i < len(c.CutExtra) {
+					extra = c.CutExtra[i]
+				}
+				at.mutate = cutAfterCommits(l, c.Cuts[i], extra)
 			}
 		}
 		if (c.Deadlines>>uint(i))&1 == 1 {
@@ -282,6 +293,7 @@ func TestC07(t *testing.T) {
 		na := rapid.IntRange(0, 3).Draw(rt, "failed_attempts")
 		for i := 0; i < na; i++ {
 			c.Cuts = append(c.Cuts, rapid.IntRange(-3, 3).Draw(rt, "cut"))
+			c.CutExtra = append(c.CutExtra, rapid.IntRange(0, 3).Draw(rt, "cut_extra"))
 		}
 		if na > 0 && rapid.IntRange(0, 2).Draw(rt, "rewinds") == 0 {
 			c.Rewind = []int{-1}
